@@ -205,6 +205,16 @@ func RunOne(p *Prop, tb *testing.T, tier string, t *tape.Tape, keepNotes bool) (
 // RunOneGiven is RunOne with artefacts supplied by a replay file.
 func RunOneGiven(p *Prop, tb *testing.T, tier string, t *tape.Tape, keepNotes bool, given map[string][]byte) (out Outcome) {
 	e := &Env{T: t, TB: tb, Tier: tier, faults: map[string]int{}, probes: map[string]int{}, keepNotes: keepNotes, given: given}
+	if processDirty {
+		// A violating run may leave process-wide state behind (the library's
+		// sync.Pool of zlib readers is the one known case: an object pooled
+		// twice).  Two collections empty every sync.Pool, so that the next run,
+		// and every shrink candidate, starts from a clean process state and a
+		// verdict depends on its own tape only.
+		runtime.GC()
+		runtime.GC()
+		processDirty = false
+	}
 	func() {
 		defer func() {
 			if r := recover(); r != nil {
@@ -220,8 +230,13 @@ func RunOneGiven(p *Prop, tb *testing.T, tier string, t *tape.Tape, keepNotes bo
 	if t.Over && out.Viol == nil {
 		out.Skip = "tape limit"
 	}
+	if out.Viol != nil {
+		processDirty = true
+	}
 	return out
 }
+
+var processDirty bool
 
 // PanicViolation builds the violation for a panic caught elsewhere (e.g. in a
 // task goroutine).
